@@ -21,10 +21,11 @@ import sys
 import time
 
 VERIF = os.path.dirname(os.path.dirname(os.path.abspath(__file__)))
-HARNESS = os.path.join(VERIF, "harness")
-WORK = os.path.join(VERIF, "work")
-REPLAYS = os.path.join(VERIF, "replays")
-EVIDENCE = os.path.join(VERIF, "evidence")
+# The selftest (mutant runs on a scratch copy of /repo) redirects these; the registered checks never do.
+HARNESS = os.environ.get("VERIF_HARNESS_DIR", os.path.join(VERIF, "harness"))
+WORK = os.environ.get("VERIF_WORK_DIR", os.path.join(VERIF, "work"))
+REPLAYS = os.environ.get("VERIF_REPLAYS_DIR", os.path.join(VERIF, "replays"))
+EVIDENCE = os.environ.get("VERIF_EVIDENCE_DIR", os.path.join(VERIF, "evidence"))
 KNOWN = os.path.join(VERIF, "known_findings.jsonl")
 TARGET = "x86_64-unknown-linux-gnu"
 
@@ -39,6 +40,7 @@ def log(*a):
 def env_offline():
     e = dict(os.environ)
     e["CARGO_NET_OFFLINE"] = "true"
+    e["CARGO_TARGET_DIR"] = os.path.join(WORK, "target")
     e.setdefault("CARGO_TERM_COLOR", "never")
     return e
 
